@@ -33,6 +33,12 @@ def run(ctx):
     # ---- correspondence: WcSplit and the list loops -----------------------------------------------------------
     from wclib import strings_upto
     pats = list(strings_upto('a|\\[]!(@*/)', 4 if ctx.quick else 6))
+    # longer strings assembled from the tokens the scanner distinguishes: groups that close, never close or close inside a
+    # bracket; brackets that close, are undone by a `/` (path mode) or by an escaped separator, or start with `]`, `!`, a class
+    stoks = ['@(', '!(', '+(', ')', '[', ']', '|', '/', 'a', 'b', '\\', '\\/', '\\|', '\\]', '\\\\', '[)', '[]', '[!', '[^]', '[:alpha:]', '[[:digit:]', '*', '(']
+    for _ in range(4000 if ctx.quick else 40000):
+        pats.append(''.join(rng.choice(stoks) for _ in range(rng.randint(3, 9))))
+    pats = sorted(set(pats))
     res_split = corr.corr_wcsplit(pats, [F('SPLIT'), F('SPLIT', 'EXTMATCH'), F('SPLIT', 'EXTMATCH', 'PATHNAME'),
                                          F('SPLIT', 'FORCEWIN', 'EXTMATCH', 'PATHNAME')])
     ctx.corr('wcsplit', res_split)
